@@ -869,8 +869,9 @@ def run(ctx, replay=None):
     n_boundary = n_pairs = 0
     for spec, overrides in specs:
         try:
-            a, b, k, boundary, n_dec, n_nontrivial = run_pair(ctx, spec, overrides)
-        except Exception as e:  # a crash in one mode only / in both is reported with its input
+            with U.watchdog(120):
+                a, b, k, boundary, n_dec, n_nontrivial = run_pair(ctx, spec, overrides)
+        except (Exception, U.Hang) as e:  # a crash in one mode only / in both is reported with its input
             ctx.violation("property", "scheduler %s raised %s: %s in a paired run" % (spec["sched"], type(e).__name__, str(e)[:200]),
                           case=dict(kind="pair", spec=spec, overrides=overrides or {}),
                           signature=dict(scheduler=spec["sched"], defect="raises_" + type(e).__name__))
